@@ -265,14 +265,14 @@ Print Assumptions click_cell_on_standard_layout.
 
 (* --- pos_on_char_boundary_inv: from a state whose caption and text are UTF-8 and whose offset is the
        byte offset of a character index (OnB), EVERY history of events keeps it so - printable /
-       multi-character / unencodable / unused key strings, tab, enter, left, right, backspace, delete
+       multi-character / unencodable (inserted as "?") / unused key strings, tab, enter, left, right, backspace, delete
        unconditionally; up, down, home, end and clicks provided the layout they carry cuts the displayed
        text at character boundaries (every segment offset is a boff of it: [lay_bnd]); set_edit_pos
        provided its argument designates a boundary ([evs_ok]).  The harness counts how often real
        layouts satisfy lay_bnd (always, so far). --- *)
 Theorem pos_on_char_boundary_inv :
   forall wcw es sb, OnB sb -> evs_ok wcw sb es ->
-    Forall (fun o => OnB (fst (fst o))) (snd (brun wcw MUtf8 sb es)) /\ OnB (fst (brun wcw MUtf8 sb es)).
+    Forall (fun o => OnB (fst (fst o))) (snd (brun wcw MUtf8 utf8_encode_replace sb es)) /\ OnB (fst (brun wcw MUtf8 utf8_encode_replace sb es)).
 Proof. intros wcw es sb. exact (brun_OnB wcw (fun c => [c]) (fun u => u) es sb). Qed.
 Print Assumptions pos_on_char_boundary_inv.
 
@@ -295,7 +295,7 @@ Print Assumptions bytes_init_on_boundary.
 
 (* one event *)
 Theorem pos_on_char_boundary_step :
-  forall wcw sb e, OnB sb -> ev_ok sb e -> OnB (fst (fst (bstep wcw MUtf8 sb e))).
+  forall wcw sb e, OnB sb -> ev_ok sb e -> OnB (fst (fst (bstep wcw MUtf8 utf8_encode_replace sb e))).
 Proof. intros wcw. exact (bstep_OnB wcw (fun c => [c]) (fun u => u)). Qed.
 Print Assumptions pos_on_char_boundary_step.
 
@@ -308,7 +308,7 @@ Print Assumptions pos_on_char_boundary_step.
 Theorem bytes_keys_simulate_reference :
   forall wcw upper lower sb ss k w lay lay',
     Rb sb ss -> edit_key k ->
-    let '(sb', sg, r) := bkeypress wcw MUtf8 sb k w lay in
+    let '(sb', sg, r) := bkeypress wcw MUtf8 utf8_encode_replace sb k w lay in
     Rb sb' (fst (ref_key (Width.cw wcw) upper lower ss k w lay')) /\
     r = snd (ref_key (Width.cw wcw) upper lower ss k w lay') /\
     chain (text sb) sg (text sb') /\ (r = Ok RUnhandled -> sg = []).
@@ -322,7 +322,7 @@ Theorem bytes_tab_inserts_blanks :
   forall wcw sb ss w lay,
     Rb sb ss ->
     let n := 8 - (pos sb mod 8) in
-    let '(sb', sg, r) := bkeypress wcw MUtf8 sb KTab w lay in
+    let '(sb', sg, r) := bkeypress wcw MUtf8 utf8_encode_replace sb KTab w lay in
     if allow_tab ss then
       Rb sb' (put ss (ins_at (text ss) (pos ss) (spaces n)) (pos ss + zlen (spaces n))) /\ r = Ok RHandled /\
       chain (text sb) sg (text sb')
@@ -348,21 +348,23 @@ Print Assumptions bytes_column_to_offset_on_boundary.
 
 (* --- any mode, ANY bytes (ill-formed text included), every history: 0 <= offset <= len --- *)
 Theorem bytes_pos_inv :
-  forall wcw m es s, Inv s ->
-    Forall (fun o => Inv (fst (fst o))) (snd (brun wcw m s es)) /\ Inv (fst (brun wcw m s es)).
-Proof. intros wcw m es s. exact (bytes_pos_inv_run wcw m es s). Qed.
+  forall wcw m kenc es s, Inv s ->
+    Forall (fun o => Inv (fst (fst o))) (snd (brun wcw m kenc s es)) /\ Inv (fst (brun wcw m kenc s es)).
+Proof. intros wcw m kenc es s. exact (bytes_pos_inv_run wcw m kenc es s). Qed.
 Print Assumptions bytes_pos_inv.
 
 (* --- wide mode: the offset is never inside a double-byte character, along every history from a
-       well-formed caption/text with the offset on a boundary.  Unconditional for ASCII keys, keys that
-       are refused or cannot be encoded, tab, enter, left, right, backspace, delete; up / down / home /
-       end / click when the layout cuts at character boundaries; set_edit_pos when its argument is a
-       boundary.  A NON-ASCII key is outside the hypotheses: edit.py inserts its UTF-8 bytes whatever
-       the byte encoding (finding C10-bytes-key-utf8). --- *)
+       well-formed caption/text with the offset on a boundary.  [kenc] is key.encode(get_encoding(),
+       "replace") under the codec (data from the implementation), assumed ASCII-compatible.
+       Unconditional for refused keys, tab, enter, left, right, backspace, delete; an accepted key
+       string when the bytes the codec gives for it are well-formed characters (a typed double-byte
+       character, or "?" for one the codec cannot represent); up / down / home / end / click when the
+       layout cuts at character boundaries; set_edit_pos when its argument is a boundary. --- *)
 Theorem wide_pos_on_char_boundary_inv :
-  forall wcw es sb, OnW sb -> w_evs_ok wcw sb es ->
-    Forall (fun o => OnW (fst (fst o))) (snd (brun wcw MWide sb es)) /\ OnW (fst (brun wcw MWide sb es)).
-Proof. intros wcw es sb. exact (wide_run_on_boundary wcw (fun c => [c]) (fun u => u) es sb). Qed.
+  forall wcw kenc, (forall cs, ascii_key cs = true -> kenc cs = cs) ->
+  forall es sb, OnW sb -> w_evs_ok wcw kenc sb es ->
+    Forall (fun o => OnW (fst (fst o))) (snd (brun wcw MWide kenc sb es)) /\ OnW (fst (brun wcw MWide kenc sb es)).
+Proof. intros wcw kenc H es sb. exact (wide_run_on_boundary wcw (fun c => [c]) (fun u => u) kenc H es sb). Qed.
 Print Assumptions wide_pos_on_char_boundary_inv.
 
 Theorem wide_on_boundary_meaning :
@@ -375,25 +377,49 @@ Print Assumptions wide_on_boundary_meaning.
        bytes); ASCII keys and enter are inserted at the cursor: the bytes state keeps representing the
        character-level reference editor's state (characters named by dbcode) --- *)
 Theorem wide_keys_simulate_reference :
-  forall wcw upper lower sb ss k w lay lay',
+  forall wcw upper lower kenc, (forall cs, ascii_key cs = true -> kenc cs = cs) ->
+  forall sb ss k w lay lay',
     Rw sb ss -> w_edit_key k ->
-    let '(sb', sg, r) := bkeypress wcw MWide sb k w lay in
+    let '(sb', sg, r) := bkeypress wcw MWide kenc sb k w lay in
     Rw sb' (fst (ref_key (Width.cw wcw) upper lower ss k w lay')) /\
     r = snd (ref_key (Width.cw wcw) upper lower ss k w lay') /\
     chain (text sb) sg (text sb') /\ (r = Ok RUnhandled -> sg = []).
 Proof. exact wide_keys_sim. Qed.
 Print Assumptions wide_keys_simulate_reference.
 
+(* no restriction to ASCII: ANY accepted key string whose bytes under the codec are the well-formed
+   characters xs (a typed double-byte character; "?" for a character the codec cannot represent) inserts
+   exactly those characters at the cursor *)
+Theorem wide_any_key_inserts_its_characters :
+  forall wcw (upper : Z -> list Z) (lower : list Z -> list Z) kenc sb ss cs xs w lay,
+    Rw sb ss -> bvalid_char wcw cs = Ok true -> kenc cs = dbflat xs -> Forall dbchar_ok xs ->
+    let '(sb', sg, r) := bkeypress wcw MWide kenc sb (KText cs) w lay in
+    Rw sb' (put ss (ins_at (text ss) (pos ss) (map dbcode xs)) (pos ss + zlen (map dbcode xs))) /\
+    r = Ok RHandled /\ chain (text sb) sg (text sb').
+Proof. intros wcw upper lower kenc. exact (wide_any_key_sim wcw upper lower kenc). Qed.
+Print Assumptions wide_any_key_inserts_its_characters.
+
 (* --- narrow mode: every byte is a character; the bytes model IS the reference editor on the bytes --- *)
 Theorem narrow_keys_simulate_reference :
-  forall wcw upper lower sb ss k w lay lay',
+  forall wcw upper lower kenc, (forall cs, ascii_key cs = true -> kenc cs = cs) ->
+  forall sb ss k w lay lay',
     Rn sb ss -> g_edit_key ascii_key k ->
-    let '(sb', sg, r) := bkeypress wcw MNarrow sb k w lay in
+    let '(sb', sg, r) := bkeypress wcw MNarrow kenc sb k w lay in
     Rn sb' (fst (ref_key (Width.cw wcw) upper lower ss k w lay')) /\
     r = snd (ref_key (Width.cw wcw) upper lower ss k w lay') /\
     chain (text sb) sg (text sb') /\ (r = Ok RUnhandled -> sg = []).
 Proof. exact narrow_keys_sim. Qed.
 Print Assumptions narrow_keys_simulate_reference.
+
+(* any accepted key: the bytes of the codec (one per character, "?" for what it cannot represent) *)
+Theorem narrow_any_key_inserts_its_bytes :
+  forall wcw (upper : Z -> list Z) (lower : list Z -> list Z) kenc sb ss cs w lay,
+    Rn sb ss -> bvalid_char wcw cs = Ok true ->
+    let '(sb', sg, r) := bkeypress wcw MNarrow kenc sb (KText cs) w lay in
+    Rn sb' (put ss (ins_at (text ss) (pos ss) (kenc cs)) (pos ss + zlen (kenc cs))) /\
+    r = Ok RHandled /\ chain (text sb) sg (text sb').
+Proof. intros wcw upper lower kenc. exact (narrow_any_key_sim wcw upper lower kenc). Qed.
+Print Assumptions narrow_any_key_inserts_its_bytes.
 
 Theorem narrow_representation_is_identity :
   forall sb ss, Rn sb ss -> text sb = text ss /\ pos sb = pos ss.
@@ -401,9 +427,9 @@ Proof. exact Rn_meaning. Qed.
 Print Assumptions narrow_representation_is_identity.
 
 (* ===== what is NOT proved here (oracle / correspondence only) =====
-   - bytes mode, a NON-ASCII key under a non-UTF-8 byte encoding: the code inserts the key's UTF-8 bytes
-     (model and correspondence agree with the code; the oracle demands the character in the terminal
-     encoding: finding C10-bytes-key-utf8); the wide / narrow theorems are about ASCII keys.
+   - bytes mode, wide / narrow: the bytes a codec gives for a key (key.encode(get_encoding(), "replace"))
+     are data from the implementation; that they are well-formed double-byte characters is a hypothesis
+     of the wide theorems (checked by the oracle's decode of both halves around the offset).
    - bytes mode, ILL-FORMED text (not the encoding of code points): no invariant is claimed; what the
      code does is shown by the examples ill_formed_* below (IndexError, or a "character" that is a
      lead byte with the continuation bytes that happen to follow).
@@ -498,7 +524,7 @@ Definition wcw0 (c : Z) : Z := if c =? 128512 then 2 else 1.
 Example bytes_run_somewhere :
   let t := [97; 128512; 98] in
   let s0 := init [] (encs t) None true false None VEdit in
-  let '(s, outs) := brun wcw0 MUtf8 s0 [EKey KLeft 9 []; EKey KLeft 9 []; EKey KBackspace 9 []; EKey KRight 9 [];
+  let '(s, outs) := brun wcw0 MUtf8 utf8_encode_replace s0 [EKey KLeft 9 []; EKey KLeft 9 []; EKey KBackspace 9 []; EKey KRight 9 [];
                                   EKey KDelete 9 []; EKey (KText [233]) 9 []] in
   (text s0, pos s0, map (fun o => pos (fst (fst o))) outs, text s, map snd outs)
   = ([97; 240; 159; 152; 128; 98], 6, [5; 1; 0; 4; 4; 6], [240; 159; 152; 128; 195; 169],
@@ -519,22 +545,22 @@ Qed.
    start, Python's negative indices wrap around the text, and the walk ends in IndexError *)
 Example ill_formed_left_raises :
   let s0 := init [] [128; 128] (Some 1) true false None VEdit in
-  snd (bstep wcw0 MUtf8 s0 (EKey KLeft 9 [])) = Err IndexError /\
-  snd (bstep wcw0 MUtf8 s0 (EKey KBackspace 9 [])) = Err IndexError.
+  snd (bstep wcw0 MUtf8 utf8_encode_replace s0 (EKey KLeft 9 [])) = Err IndexError /\
+  snd (bstep wcw0 MUtf8 utf8_encode_replace s0 (EKey KBackspace 9 [])) = Err IndexError.
 Proof. vm_compute. split; reflexivity. Qed.
 
 (* ill-formed text 2: a truncated 4-byte sequence (lead + one continuation byte) followed by 'a': the
    two bytes are treated as one character by left / backspace *)
 Example ill_formed_truncated_is_one_character :
   let s0 := init [] [240; 159; 97] (Some 2) true false None VEdit in
-  pos (fst (fst (bstep wcw0 MUtf8 s0 (EKey KLeft 9 [])))) = 0 /\
-  text (fst (fst (bstep wcw0 MUtf8 s0 (EKey KBackspace 9 [])))) = [97].
+  pos (fst (fst (bstep wcw0 MUtf8 utf8_encode_replace s0 (EKey KLeft 9 [])))) = 0 /\
+  text (fst (fst (bstep wcw0 MUtf8 utf8_encode_replace s0 (EKey KBackspace 9 [])))) = [97].
 Proof. vm_compute. split; reflexivity. Qed.
 
 (* outside the hypotheses: set_edit_pos with a byte offset inside a character puts the cursor there *)
 Example set_edit_pos_can_leave_the_boundaries :
   let s0 := init [] (encs [128512]) None true false None VEdit in
-  pos (fst (fst (bstep wcw0 MUtf8 s0 (ESetPos 2)))) = 2.
+  pos (fst (fst (bstep wcw0 MUtf8 utf8_encode_replace s0 (ESetPos 2)))) = 2.
 Proof. vm_compute. reflexivity. Qed.
 
 (* ===== wide / narrow bytes: non-vacuity ===== *)
@@ -542,7 +568,7 @@ Proof. vm_compute. reflexivity. Qed.
 Example wide_run_somewhere :
   let cs := [DSingle 97; DDouble 166 126; DSingle 98] in
   let s0 := init [] (dbflat cs) None true false None VEdit in
-  let '(s, outs) := brun wcw0 MWide s0 [EKey KLeft 9 []; EKey KLeft 9 []; EKey KBackspace 9 [];
+  let '(s, outs) := brun wcw0 MWide (fun cs => cs) s0 [EKey KLeft 9 []; EKey KLeft 9 []; EKey KBackspace 9 [];
                                        EKey (KText [120]) 9 []; EKey KRight 9 []; EKey KDelete 9 []] in
   (text s0, pos s0, map (fun o => pos (fst (fst o))) outs, text s)
   = ([97; 166; 126; 98], 4, [3; 1; 0; 1; 3; 3], [120; 166; 126]).
@@ -561,5 +587,5 @@ Qed.
    the scan takes for a double-byte character *)
 Example wide_ill_formed :
   let s0 := init [] [97; 166; 98] (Some 3) true false None VEdit in
-  pos (fst (fst (bstep wcw0 MWide s0 (EKey KLeft 9 [])))) = 1.
+  pos (fst (fst (bstep wcw0 MWide (fun cs => cs) s0 (EKey KLeft 9 [])))) = 1.
 Proof. vm_compute. reflexivity. Qed.
